@@ -1,4 +1,184 @@
-(* C02 - one invocation per Buildable instance; the built graph mirrors the config graph. *)
-From Fiddle Require Import PyBase PySlice Sig ArgStore PyCall Heap Traverse Build Anchors.
+(* C02 - one invocation per Buildable instance; the built graph mirrors the config graph.
+   Every theorem is about a run of fdl.build (Build.build_node under Traverse.mrun) on a
+   well-formed heap with a valid root.  Proofs: theories/Traverse_proofs.v, Build_proofs.v. *)
+From Fiddle Require Import PyBase PySlice Sig ArgStore PyCall Heap Traverse Build Build_stmt
+  Traverse_proofs Build_proofs Anchors.
 
-Example C02_placeholder : True. Proof. exact I. Qed.
+Local Open Scope nat_scope.
+
+Theorem C02_pure : forall e fails h r s res,
+  wf_b e h = true -> root_ok h r -> mrun e h (build_node e fails) r = (s, res) ->
+  pure_stmt h s.
+Proof. exact pure_holds. Qed.
+Print Assumptions C02_pure.
+
+Theorem C02_once : forall e fails h r s res,
+  wf_b e h = true -> root_ok h r -> mrun e h (build_node e fails) r = (s, res) ->
+  once_stmt s.
+Proof. exact once_holds. Qed.
+Print Assumptions C02_once.
+
+Theorem C02_memo_function : forall e fails h r s res,
+  wf_b e h = true -> root_ok h r -> mrun e h (build_node e fails) r = (s, res) ->
+  memo_function_stmt s.
+Proof. exact memo_function_holds. Qed.
+Print Assumptions C02_memo_function.
+
+Theorem C02_enough_fuel : forall e fails h r s res,
+  wf_b e h = true -> root_ok h r -> mrun e h (build_node e fails) r = (s, res) ->
+  enough_fuel_stmt res.
+Proof. exact enough_fuel_holds. Qed.
+Print Assumptions C02_enough_fuel.
+
+(* only_reach_stmt and exactly_reach_stmt are FALSE as stated (a dictionary-like node with a
+   duplicated key has a child that is traversed but that no path addresses): see
+   C02_only_reach_stmt_false / C02_exactly_reach_stmt_false below.  They hold with the extra
+   hypothesis [keys_ok h] (distinct keys in NDict / NDefaultDict / NNamedTuple nodes), and
+   without any extra hypothesis when reachability is by child steps (creach). *)
+Theorem C02_only_reach_partial : forall e fails h r s res,
+  wf_b e h = true -> root_ok h r -> mrun e h (build_node e fails) r = (s, res) ->
+  keys_ok h -> only_reach_stmt e h r s.
+Proof. exact only_reach_partial. Qed.
+Print Assumptions C02_only_reach_partial.
+
+Theorem C02_exactly_reach_partial : forall e fails h r s res,
+  wf_b e h = true -> root_ok h r -> mrun e h (build_node e fails) r = (s, res) ->
+  keys_ok h -> exactly_reach_stmt e h r s res.
+Proof. exact exactly_reach_partial. Qed.
+Print Assumptions C02_exactly_reach_partial.
+
+Theorem C02_reach_processed : forall e fails h r s res,
+  wf_b e h = true -> root_ok h r -> mrun e h (build_node e fails) r = (s, res) ->
+  forall r' i, res = inl r' -> reach e h r i -> In i (log s).
+Proof. exact reach_processed. Qed.
+Print Assumptions C02_reach_processed.
+
+Theorem C02_only_creach : forall e fails h r s res,
+  wf_b e h = true -> root_ok h r -> mrun e h (build_node e fails) r = (s, res) ->
+  forall i, In i (log s) -> creach e h r i.
+Proof. exact only_creach_holds. Qed.
+Print Assumptions C02_only_creach.
+
+Theorem C02_exactly_creach : forall e fails h r s res,
+  wf_b e h = true -> root_ok h r -> mrun e h (build_node e fails) r = (s, res) ->
+  forall r', res = inl r' -> forall i, In i (log s) <-> creach e h r i.
+Proof. exact exactly_creach_holds. Qed.
+Print Assumptions C02_exactly_creach.
+
+Theorem C02_creach_reach : forall e h r k, keys_ok h -> (creach e h r k <-> reach e h r k).
+Proof.
+  intros e h r k Hk. split; [apply creach_reach, keys_ok_elts_ok; exact Hk | apply reach_creach].
+Qed.
+Print Assumptions C02_creach_reach.
+
+Theorem C02_children_first : forall e fails h r s res,
+  wf_b e h = true -> root_ok h r -> mrun e h (build_node e fails) r = (s, res) ->
+  children_first_stmt e h s.
+Proof. exact children_first_holds. Qed.
+Print Assumptions C02_children_first.
+
+Theorem C02_fresh_distinct : forall e fails h r s res,
+  wf_b e h = true -> root_ok h r -> mrun e h (build_node e fails) r = (s, res) ->
+  fresh_distinct_stmt h s.
+Proof. exact fresh_distinct_holds. Qed.
+Print Assumptions C02_fresh_distinct.
+
+Theorem C02_mirrors : forall e fails h r s res,
+  wf_b e h = true -> root_ok h r -> mrun e h (build_node e fails) r = (s, res) ->
+  mirrors_stmt e h s.
+Proof. exact mirrors_holds. Qed.
+Print Assumptions C02_mirrors.
+
+(* failure_prefix_stmt is FALSE as stated, for two reasons: its [reach] conjunct (as above), and
+   its [fails k = Some x] conjunct, which fails when the raising node is a TaggedValue without a
+   value (build_node raises FRaise k 0 there whatever the oracle says): see
+   C02_failure_prefix_stmt_false.  The exact statement holds under [keys_ok h] and "if the raising
+   node is such a TaggedValue then the oracle says so" (in particular when the raising node is not
+   a TaggedValue: C02_failure_prefix_untagged); C02_failure_prefix_core is the hypothesis-free
+   version (creach instead of reach, [fails k = Some x \/ (x = 0 /\ is_tagged h k)]). *)
+Theorem C02_failure_prefix : forall e fails h r s res,
+  wf_b e h = true -> root_ok h r -> mrun e h (build_node e fails) r = (s, res) ->
+  keys_ok h -> (forall k, res = inr (FRaise k 0%N) -> is_tagged h k -> fails k = Some 0%N) ->
+  failure_prefix_stmt e fails h r s res.
+Proof. exact failure_prefix_partial. Qed.
+Print Assumptions C02_failure_prefix.
+
+Theorem C02_failure_prefix_untagged : forall e fails h r s res,
+  wf_b e h = true -> root_ok h r -> mrun e h (build_node e fails) r = (s, res) ->
+  keys_ok h -> (forall k x, res = inr (FRaise k x) -> ~ is_tagged h k) ->
+  failure_prefix_stmt e fails h r s res.
+Proof. exact failure_prefix_partial_untagged. Qed.
+Print Assumptions C02_failure_prefix_untagged.
+
+Theorem C02_keys_ok_b : forall h, keys_ok_b h = true -> keys_ok h.
+Proof. exact keys_ok_b_spec. Qed.
+Print Assumptions C02_keys_ok_b.
+
+Theorem C02_failure_prefix_core : forall e fails h r s res,
+  wf_b e h = true -> root_ok h r -> mrun e h (build_node e fails) r = (s, res) ->
+  forall k x, res = inr (FRaise k x) ->
+    creach e h r k /\ ~ In k (log s) /\ (fails k = Some x \/ (x = 0%N /\ is_tagged h k)) /\
+    (forall j, child_of e h k j -> In j (log s)) /\
+    (forall i, In i (log s) ->
+       fails i = None \/ is_buildable h i = false
+       \/ (exists fn a t, nth_error h i = Some (NBuildable BPartial fn a t))
+       \/ (exists fn a t, nth_error h i = Some (NBuildable BArgFactory fn a t))
+       \/ (exists fn a t, nth_error h i = Some (NBuildable BTagged fn a t))).
+Proof. exact failure_prefix_core. Qed.
+Print Assumptions C02_failure_prefix_core.
+
+(* the counterexamples *)
+Theorem C02_only_reach_stmt_false :
+  exists e fails h r s res,
+    wf_b e h = true /\ root_ok h r /\ mrun e h (build_node e fails) r = (s, res) /\
+    ~ only_reach_stmt e h r s.
+Proof. exact only_reach_stmt_false. Qed.
+Print Assumptions C02_only_reach_stmt_false.
+
+Theorem C02_exactly_reach_stmt_false :
+  exists e fails h r s res,
+    wf_b e h = true /\ root_ok h r /\ mrun e h (build_node e fails) r = (s, res) /\
+    ~ exactly_reach_stmt e h r s res.
+Proof. exact exactly_reach_stmt_false. Qed.
+Print Assumptions C02_exactly_reach_stmt_false.
+
+Theorem C02_failure_prefix_stmt_false :
+  exists e fails h r s res,
+    wf_b e h = true /\ root_ok h r /\ mrun e h (build_node e fails) r = (s, res) /\
+    keys_ok h /\ ~ failure_prefix_stmt e fails h r s res.
+Proof. exact failure_prefix_stmt_false. Qed.
+Print Assumptions C02_failure_prefix_stmt_false.
+
+Eval vm_compute in
+  (wf_b [] cex_dup_heap, mrun [] cex_dup_heap (build_node [] no_fail_) (RP 1)).
+Eval vm_compute in
+  (wf_b [] cex_tag_heap, mrun [] cex_tag_heap (build_node [] no_fail_) (RP 0)).
+
+(* non-vacuity: a diamond.  Config 0 is shared by Configs 1 and 2, which sit in the list 3. *)
+Definition diamond_env : sigenv :=
+  [(1%N, [mkparam 5%N PosOrKw None false]);
+   (2%N, [mkparam 6%N PosOrKw None false]);
+   (3%N, [mkparam 7%N PosOnly None false; mkparam 8%N KwOnly (Some (RA (AInt 0))) false])].
+Definition diamond_heap : heap :=
+  [NBuildable BConfig 1%N [(KName 5%N, RA (AInt 1))] [];
+   NBuildable BConfig 2%N [(KName 6%N, RP 0)] [];
+   NBuildable BConfig 3%N [(KPos 0%Z, RP 0)] [];
+   NList [RP 1; RP 2]].
+
+Example C02_nonvacuous :
+  wf_b diamond_env diamond_heap = true /\ root_ok diamond_heap (RP 3) /\ keys_ok diamond_heap /\
+  exists s r',
+    mrun diamond_env diamond_heap (build_node diamond_env no_fail_) (RP 3) = (s, inl r') /\
+    log s = [0; 1; 2; 3] /\ r' = RP 7 /\
+    skipn 4 (out s) =
+      [NObj 1%N [(5%N, PV (RA (AInt 1)))];
+       NObj 2%N [(6%N, PV (RP 4))];
+       NObj 3%N [(7%N, PV (RP 4)); (8%N, PV (RA (AInt 0)))];
+       NList [RP 5; RP 6]].
+Proof.
+  split; [vm_compute; reflexivity |]. split; [vm_compute; lia |].
+  split; [apply keys_ok_b_spec; vm_compute; reflexivity |].
+  eexists. eexists. split; [vm_compute; reflexivity |].
+  split; [reflexivity |]. split; reflexivity.
+Qed.
+Print Assumptions C02_nonvacuous.
